@@ -1011,7 +1011,7 @@ def runFull (std : Stdlib) (c : Json) : R (Json × Option Json × Option String)
     let c' := c'.setObjVal! "impl" ((optField impl "twin").getD .null)
     let (m, o, _) ← runUnpack std c'
     pure (Json.mkObj [("twin", m)], o, none)
-  | "load" | "mergerep" | "oddtarget" | "unpackers" | "ifaceheld" | "ptrinit" => pure (Json.mkObj [("unmodelled", .bool true)], none, none)
+  | "load" | "mergerep" | "oddtarget" | "unpackers" | "ifaceheld" | "ptrinit" | "rectarget" => pure (Json.mkObj [("unmodelled", .bool true)], none, none)
   | "forest" => pure (runForest c, none, none)
   | "concurrent" =>
     -- reads are functions of the tree: any number of readers get the solo results and leave the tree as it is
